@@ -54,7 +54,24 @@ class ExprInModel(ExprModel):
                     arr : FieldArrayModel = r.fm
                     
                     if arr.is_rand_sz:
-                        pass
+                        # The size is solved together with the elements:
+                        # element i counts only if it lies below the size
+                        for i,f in enumerate(arr.field_l):
+                            t = ExprBinModel(
+                                ExprBinModel(
+                                    ExprLiteralModel(i, False, 32),
+                                    BinExprType.Lt,
+                                    ExprFieldRefModel(arr.size)),
+                                BinExprType.And,
+                                ExprBinModel(
+                                    self.lhs,
+                                    BinExprType.Eq,
+                                    ExprFieldRefModel(f)))
+                            if expr is None:
+                                expr = t
+                            else:
+                                expr = ExprBinModel(expr, BinExprType.Or, t)
+                        t = None
                     else:
                         for i in range(int(arr.size.get_val())):
                             t = ExprBinModel(
